@@ -76,6 +76,9 @@ def build_python(spec, style=None, share=True):
         for src, tgt, et, attrs in c.get('edges', []):
             tmpl = get_nt(et, EdgeTemplate, 'edge_types', 'ets') if et else None
             edges.append((src, tgt, tmpl, dict(attrs)))
+        # (the edge lists handed to the constructors, in construction order: a check may build a second circuit from the very same
+        # list and attribute dictionary objects)
+        objs.setdefault('edge_lists', []).append(edges)
         if c.get('subs'):
             return CircuitTemplate(name=c['name'], circuits={k: circ(v) for k, v in c['subs'].items()}, edges=edges)
         nodes = {k: get_nt(v, NodeTemplate, 'node_types', 'nts') for k, v in c['nodes'].items()}
